@@ -80,25 +80,25 @@ func (k *KnownFile) match(v Violation) *KnownFinding {
 }
 
 type agg struct {
-	mu       sync.Mutex
-	execs    int
-	runs     int
-	cmds     int
-	effects  int
-	faults   int
-	simNs    int64
-	count    Counters
-	shapes   map[string]bool
-	states   map[string]bool
-	ilv      map[string]bool
-	digests  map[string]bool
-	nontriv  map[string]bool
-	samples  []any
-	foreign  map[string]int
-	harness  []string
-	viol     map[string]*found // coarse sig -> first scenario
-	perMode  map[string]int
-	extra    map[string]int
+	mu      sync.Mutex
+	execs   int
+	runs    int
+	cmds    int
+	effects int
+	faults  int
+	simNs   int64
+	count   Counters
+	shapes  map[string]bool
+	states  map[string]bool
+	ilv     map[string]bool
+	digests map[string]bool
+	nontriv map[string]bool
+	samples []any
+	foreign map[string]int
+	harness []string
+	viol    map[string]*found // coarse sig -> first scenario
+	perMode map[string]int
+	extra   map[string]int
 }
 
 type found struct {
@@ -109,7 +109,9 @@ type found struct {
 	idx   int
 }
 
-func coarseSig(v Violation) string { return v.Prop + "|" + v.Oracle + "|" + coarse(strings.TrimPrefix(v.Sig, v.Oracle+":")) }
+func coarseSig(v Violation) string {
+	return v.Prop + "|" + v.Oracle + "|" + coarse(strings.TrimPrefix(v.Sig, v.Oracle+":"))
+}
 
 func (a *agg) add(prop, mode string, idx int, rep *RunReport) {
 	a.mu.Lock()
@@ -147,7 +149,12 @@ func (a *agg) add(prop, mode string, idx int, rep *RunReport) {
 	if len(a.samples) < 3 && rep.Sc != nil && rep.NonTrivial {
 		a.samples = append(a.samples, sampleOf(rep.Sc))
 	}
-	for _, v := range rep.V {
+	for vi, v := range rep.V {
+		sc := rep.Sc
+		if rep.PerViolScen != nil && vi < len(rep.PerViolScen) && sc != nil {
+			sc = rep.Sc.Clone()
+			sc.Steps = rep.PerViolScen[vi]
+		}
 		if v.Prop != prop {
 			a.foreign[v.Prop+" "+v.Oracle]++
 			continue
@@ -155,11 +162,11 @@ func (a *agg) add(prop, mode string, idx int, rep *RunReport) {
 		k := coarseSig(v)
 		f := a.viol[k]
 		if f == nil {
-			a.viol[k] = &found{v: v, sc: rep.Sc, mode: mode, count: 1, idx: idx}
+			a.viol[k] = &found{v: v, sc: sc, mode: mode, count: 1, idx: idx}
 		} else {
 			f.count++
 			if idx < f.idx {
-				f.v, f.sc, f.mode, f.idx = v, rep.Sc, mode, idx
+				f.v, f.sc, f.mode, f.idx = v, sc, mode, idx
 			}
 		}
 	}
@@ -590,36 +597,36 @@ func writeEvidence(plan *PropPlan, tier string, seed uint64, a *agg, wall float6
 		perHour = float64(a.runs) / wall * 3600
 	}
 	cov := map[string]any{
-		"evaluations":           a.execs,
-		"distinct_nontrivial":   len(a.nontriv),
-		"rule":                  plan.Rule,
-		"samples":               samples,
-		"runs":                  a.runs,
-		"runs_per_mode":         a.perMode,
-		"runs_per_hour":         int(perHour),
-		"seeds_per_hour":        int(perHour),
-		"commands":              a.cmds,
-		"mutations_in_effect":   a.effects,
-		"simulated_time_s":      float64(a.simNs) / 1e9,
-		"faults_fired":          faultFired,
-		"faults_fired_total":    a.faults,
-		"scheduler":             sched,
-		"distinct_interleavings": len(a.ilv),
-		"distinct_model_states": len(a.states),
+		"evaluations":                       a.execs,
+		"distinct_nontrivial":               len(a.nontriv),
+		"rule":                              plan.Rule,
+		"samples":                           samples,
+		"runs":                              a.runs,
+		"runs_per_mode":                     a.perMode,
+		"runs_per_hour":                     int(perHour),
+		"seeds_per_hour":                    int(perHour),
+		"commands":                          a.cmds,
+		"mutations_in_effect":               a.effects,
+		"simulated_time_s":                  float64(a.simNs) / 1e9,
+		"faults_fired":                      faultFired,
+		"faults_fired_total":                a.faults,
+		"scheduler":                         sched,
+		"distinct_interleavings":            len(a.ilv),
+		"distinct_model_states":             len(a.states),
 		"distinct_command_shape_x_prestate": len(a.shapes),
-		"distinct_trace_digests": len(a.digests),
-		"probes":                probes,
-		"counters":              other,
-		"extra":                 a.extra,
-		"foreign_violations":    a.foreign,
+		"distinct_trace_digests":            len(a.digests),
+		"probes":                            probes,
+		"counters":                          other,
+		"extra":                             a.extra,
+		"foreign_violations":                a.foreign,
 		"components": map[string]string{
-			"cmd/ergo + internal/ergo + cobra/pflag":  "real, built from /repo's working tree",
-			"Go runtime and std":                       "real; syscall wrappers, time.Now and crypto/rand.Read carry the interposer (build-time overlay)",
+			"cmd/ergo + internal/ergo + cobra/pflag":    "real, built from /repo's working tree",
+			"Go runtime and std":                        "real; syscall wrappers, time.Now and crypto/rand.Read carry the interposer (build-time overlay)",
 			"kernel VFS/tmpfs, flock, O_APPEND, rename": "real",
-			"process scheduling":                       "simulated (controller releases one process at a time at each .ergo system call)",
-			"wall clock, entropy":                      "simulated (seeded streams)",
-			"crash / short I/O / errno / disk damage":  "injected",
-			"power loss, network":                      "not modelled / none exists",
+			"process scheduling":                        "simulated (controller releases one process at a time at each .ergo system call)",
+			"wall clock, entropy":                       "simulated (seeded streams)",
+			"crash / short I/O / errno / disk damage":   "injected",
+			"power loss, network":                       "not modelled / none exists",
 		},
 		"exhaustive": false,
 	}
